@@ -78,8 +78,10 @@ fn gen_systematic(g: &mut Gen) {
 fn gen_case(g: &mut Gen) {
     let ntapes = if g.rng.chance(1, 2) { 1 } else { 2 };
     g.count(&format!("c15.case.tapes.{}", ntapes));
-    g.op(format!("@ tapes {}", ntapes));
+    let tape_via = pick_form(g, "c15", "tape", &["new", "default"]);
+    g.op(format!("@ tapes {} via={}", ntapes, tape_via));
     let mut st = ProgGen::new(Kind::Fp, "c15");
+    let mut ntapes = ntapes;
     let cycles = g.rng.range(1, 5);
     g.count(&format!("c15.case.cycles.{}", cycles));
     // every tape starts with one or two variables
@@ -97,6 +99,38 @@ fn gen_case(g: &mut Gen) {
             let live_on = |st: &ProgGen, t: usize| -> Vec<usize> {
                 (0..st.len()).filter(|&k| st.tape[k] == Some(t) && !st.stale[k]).collect()
             };
+            if g.rng.chance(1, 8) {
+                st.emit_observation(g);
+            }
+            if g.rng.chance(1, 25) {
+                if let Some(l) = st.clone_instr(g, Some(t)) {
+                    g.op(l);
+                }
+            }
+            if g.rng.chance(1, 40) && ntapes < 4 {
+                // Clone for WengertList + Record::from_existing: carry records over to the copy
+                let live = live_on(&st, t);
+                if !live.is_empty() {
+                    g.count("c15.clonetape");
+                    g.op(format!("clonetape src={}", t));
+                    let dst = ntapes;
+                    ntapes += 1;
+                    for _ in 0..g.rng.range(1, 2) {
+                        let a = *g.rng.pick(&live);
+                        let k = st.len();
+                        let target = match g.rng.below(8) {
+                            0 => { g.count("c15.rehome.none"); None }
+                            1 => { g.count("c15.rehome.other_tape"); Some(g.rng.below(ntapes)) }
+                            _ => { g.count("c15.rehome.copy"); Some(dst) }
+                        };
+                        st.push(false, target.is_some(), 4, 1, vec![], 0, target);
+                        match target {
+                            Some(d) => g.op(format!("rehome r{} r{} t={}", k, a, d)),
+                            None => g.op(format!("rehome r{} r{} t=none", k, a)),
+                        }
+                    }
+                }
+            }
             if roll < 55 {
                 if let Some(l) = st.op_instr(g, Some(t)) {
                     g.op(l);
@@ -133,7 +167,7 @@ fn gen_case(g: &mut Gen) {
                     g.op(format!("reset r{} via={}", k, via));
                     st.is_var[k] = true;
                 }
-            } else if roll < 93 && ntapes == 2 {
+            } else if roll < 93 && ntapes >= 2 {
                 // cross-tape attempt with a random binary operator form
                 let (la, lb) = (live_on(&st, 0), live_on(&st, 1));
                 if !la.is_empty() && !lb.is_empty() {
@@ -277,9 +311,9 @@ fn show(r: &Rc<Fp>) -> String {
 }
 
 impl Case {
-    fn new(n: usize) -> Case {
+    fn new(n: usize, via: &str) -> Case {
         Case {
-            main: CaseG::new(n),
+            main: CaseG::new_via(n, via),
             shadow: CaseG::new(n),
             retired: vec![],
             info: vec![],
@@ -402,7 +436,7 @@ impl Case {
         let do_reset = |r: &mut Rc<Fp>| match via {
             "do_reset" => {
                 let taken = std::mem::replace(r, Record::constant(Fp(0)));
-                *r = extend(Record::do_reset(taken));
+                *r = Record::do_reset(taken);
             }
             _ => r.reset(),
         };
@@ -439,6 +473,40 @@ impl Case {
         format!("idx={} const={}", r.index, if r.history().is_none() { 1 } else { 0 })
     }
 
+    /// `Clone for WengertList`: a new tape with a copy of the entries; never mirrored
+    fn clone_tape(&mut self, toks: &[&str]) -> String {
+        let src: usize = opt_arg("src", toks).map(|s| s.parse().unwrap()).unwrap_or(0);
+        let copy = match catch(|| self.main.tapes[src].get().clone()) {
+            Ok(l) => l,
+            Err(kind) => return panic_str(kind),
+        };
+        self.main.tapes.push(TapeBox::from_list(copy));
+        self.shadow.tapes.push(TapeBox::new());
+        self.epoch.push(0);
+        self.tainted.push(true);
+        "ok".into()
+    }
+
+    /// `Record::from_existing((number, index), list)`: the record of another list (or none)
+    fn rehome(&mut self, toks: &[&str]) -> String {
+        let k = self.main.names[toks[2]];
+        let t: Option<usize> = opt_arg("t", toks).and_then(|s| s.parse().ok());
+        let (number, index) = (self.main.recs[k].number.clone(), self.main.recs[k].index);
+        let list = t.map(|t| self.main.tapes[t].get());
+        let r = match catch(|| Record::from_existing((number, index), list)) {
+            Ok(r) => r,
+            Err(kind) => return panic_str(kind),
+        };
+        let answer = show(&r);
+        let pos = self.main.recs.len();
+        self.info.push(Info { tape: t, epoch: t.map(|t| self.epoch[t]).unwrap_or(0), tainted: true });
+        self.shadow.recs.push(Record::constant(Fp(0)));
+        self.main.names.insert(toks[1].to_string(), pos);
+        self.shadow.names.insert(toks[1].to_string(), pos);
+        self.main.recs.push(r);
+        answer
+    }
+
     fn clear(&mut self, toks: &[&str]) -> String {
         let t: usize = opt_arg("t", toks).map(|s| s.parse().unwrap()).unwrap_or(0);
         if let Err(kind) = catch(|| self.main.tapes[t].get().clear()) {
@@ -468,7 +536,8 @@ impl Runner {
         }
         if toks[0] == "@" {
             self.case = None;
-            self.case = Some(Case::new(toks[2].parse().unwrap()));
+            let via = opt_arg("via", toks).unwrap_or("new");
+            self.case = Some(Case::new(toks[2].parse().unwrap(), via));
             return "ok".into();
         }
         let c = match &mut self.case {
@@ -477,6 +546,19 @@ impl Runner {
         };
         match toks[0] {
             "clear" => c.clear(toks),
+            "clonetape" => c.clone_tape(toks),
+            "cmp" | "show" => {
+                if !refs_ok(&c.main.names, toks, refs_from(toks)) {
+                    return "bad-ref".into();
+                }
+                observe_line(&c.main, toks).unwrap_or("bad-op".into())
+            }
+            "rehome" => {
+                if !refs_ok(&c.main.names, toks, 2) {
+                    return "bad-ref".into();
+                }
+                c.rehome(toks)
+            }
             "derivs" | "reset" => {
                 if !refs_ok(&c.main.names, toks, 1) {
                     return "bad-ref".into();
